@@ -449,6 +449,26 @@ def schedule_rules(R, ts):
                             okb = True
                         if backward and ((g[1] == "<=" and own(g[2]) and other(g[0])) or (g[1] == ">=" and own(g[0]) and other(g[2]))):
                             okb = True
+            # the same decision seen from the step that moves on: the scan advances only past tasks that are not later
+            # (forward) / that are strictly later (backward) - covers loops written without a `break`
+            advs = f.calls("aws_linked_list_prev" if backward else "aws_linked_list_next")
+            if not okb and advs:
+                tp, tt = f.params[1]["n"], f.params[2]["n"]
+                own = lambda n_: f.show(RU.uncast(f, n_)) in (tt, tp + "->timestamp")
+                other = lambda n_: "timestamp" in f.show(n_) and not own(n_)
+                oka = True
+                for adv in advs:
+                    hit = False
+                    for c, p, bb in RU.guards(f, adv, dom):
+                        g = RU.cmp_norm(f, c, p)
+                        if not g or g[2] is None:
+                            continue
+                        if not backward and ((g[1] == "<=" and own(g[2]) and other(g[0])) or (g[1] == ">=" and own(g[0]) and other(g[2]))):
+                            hit = True
+                        if backward and ((g[1] == ">" and own(g[2]) and other(g[0])) or (g[1] == "<" and own(g[0]) and other(g[2]))):
+                            hit = True
+                    oka = oka and hit
+                okb = oka
             R.check(okb, "SCHEDULE", "future:fallback-stops-at-strictly-later", "%s()" % name, "sorted insertion stops at the first task strictly later (equal times stay FIFO)",
                     "the fallback sorted insertion does not stop at the first strictly later task")
             # the scan variable (the position handed to insert_before) walks the list node by node from its first node:
